@@ -17,7 +17,7 @@
   racing with readers.  The many-goroutine stress run and the race-detector run of the `pool` family
   only VALIDATE the atomicity assumption ("one event = one whole operation"); they prove nothing.
 -/
-import Verif.Lemmas.Pools
+import Verif.Lemmas.PoolsKinds
 namespace Verif.C14
 open Verif Verif.Pools
 
@@ -40,6 +40,38 @@ theorem recycled_is_fresh_bytesSkipDecoder (o : BytesSkipDecoderObj) :
 theorem recycled_is_fresh_readerSkipDecoder (o : ReaderSkipDecoderObj) :
     o.release = { ReaderSkipDecoderObj.zero with b := o.b } := rfl
 
+/-- … and that state is as good as new in the strong sense: `New…(arg)` on an object in ANY state that
+    can sit in a pool — for ReaderSkipDecoder any retained buffer of any content, for SkipDecoder any
+    stale `rn` — starts an instance that refines the same pool-free, allocator-free machine as one
+    started on a zero object (`Good.init_ref` of the five pooled kinds; `Fresh` is `True` for all of
+    them: every field an operation reads is overwritten by `New…` or at the start of the operation). -/
+theorem recycled_behaves_as_new (src : Src) (b : Bytes)
+    (o1 : BufferReaderObj) (o2 : SkipDecoderObj) (o3 : BytesSkipDecoderObj) (o4 : ReaderSkipDecoderObj) :
+    goodBR.Ref (kBR.init o1.recycle src) (goodBR.ainit src) ∧
+    goodBR.Ref (kBR.init BufferReaderObj.zero src) (goodBR.ainit src) ∧
+    goodSD.Ref (kSD.init o2.release src) (goodSD.ainit src) ∧
+    goodSD.Ref (kSD.init o2 src) (goodSD.ainit src) ∧
+    goodBSD.Ref (kBSD.init o3.release b) (goodBSD.ainit b) ∧
+    goodRSD.Ref (kRSD.init o4.release src) (goodRSD.ainit src) ∧
+    goodRSD.Ref (kRSD.init ReaderSkipDecoderObj.zero src) (goodRSD.ainit src) :=
+  ⟨goodBR.init_ref _ _ trivial, goodBR.init_ref _ _ trivial, goodSD.init_ref _ _ trivial,
+   goodSD.init_ref _ _ trivial, goodBSD.init_ref _ _ trivial, goodRSD.init_ref _ _ trivial,
+   goodRSD.init_ref _ _ trivial⟩
+
+/-- **the retained buffer is never exposed**.  `ReaderSkipDecoder.Next(t)` on a recycled object: whatever
+    the buffer `b` holds from the previous tenant (any bytes, any length), whatever `n` was, and whatever
+    memory `d` the shared pool hands out when the buffer has to grow — the call returns exactly what the
+    buffer-free decoder `readerDecNext` returns on the same source (the same bytes `p.b[:n]`, every one of
+    them written in this call; the same error), and leaves the source where that decoder leaves it. -/
+theorem readerSkip_old_buffer_never_exposed (d : Dirty) (b : Bytes) (n : Nat) (src : Src) (t : UInt8) :
+    OutRel (fun x y => x.1 = (y.1, y.2.stream.length) ∧ x.2.1.r = some y.2)
+      (rsdNext d ⟨some src, n, b⟩ t) (readerDecNext src t) ∧
+    ∀ (d' : Dirty) (b' : Bytes) (n' : Nat),
+      (kRSD.step d (some ⟨some src, n, b⟩) t).2.1 = (kRSD.step d' (some ⟨some src, n', b'⟩) t).2.1 := by
+  refine ⟨rsdNext_spec d _ src t rfl, fun d' b' n' => ?_⟩
+  rw [(rsd_step_ref d (some ⟨some src, n, b⟩) (some src) t rfl).2,
+      (rsd_step_ref d' (some ⟨some src, n', b'⟩) (some src) t rfl).2]
+
 /-! ## isolation -/
 
 /-- **isolation** (generic form).  For a kind whose instances refine an allocator-free machine (`Good`):
@@ -51,23 +83,81 @@ theorem isolation_generic {K : Kind} (G : Good K) (evs : List (Ev K)) (i : Nat) 
     ((Sys.empty : Sys K).run evs).outputs i = alone i evs :=
   isolation_of_good G evs i
 
-/-- **no_cross_bytes**: two histories in which instance `i` does the same things — the other
-    instances may do anything else, with any other bytes — give `i` the same results: nothing another
-    instance reads, writes, frees or recycles ever shows up in what `i` observes. -/
+/-- **isolation** for systems that mix instances of every kind — DefaultReader, BufferReader,
+    SkipDecoder, BytesSkipDecoder, ReaderSkipDecoder, DefaultWriter, BufferWriter (`All` = the sum of
+    the seven kinds) — sharing one object pool per pooled type and ONE buffer pool: for every history,
+    i.e. every interleaving of whole operations of any number of instances, every pooled object `Get`
+    may return and every recycled or fresh memory (any content) `Malloc` may return, each instance
+    observes exactly what it observes when it runs alone.
+    (Writers: the user fills every region it is handed, as BufferWriter does; an unfilled `Malloc`
+    region is dirty memory by contract and is outside the statement.) -/
+theorem isolation (evs : List (Ev All)) (i : Nat) :
+    ((Sys.empty : Sys All).run evs).outputs i = alone i evs :=
+  isolation_of_good goodAll evs i
+
+/-- **no_cross_bytes** (generic form): two histories in which instance `i` does the same things — the
+    other instances may do anything else, with any other bytes — give `i` the same results: nothing
+    another instance reads, writes, frees or recycles ever shows up in what `i` observes. -/
 theorem no_cross_bytes_generic {K : Kind} (G : Good K) (evs evs' : List (Ev K)) (i : Nat)
     (h : solo i evs = solo i evs') :
     ((Sys.empty : Sys K).run evs).outputs i = ((Sys.empty : Sys K).run evs').outputs i := by
   rw [isolation_of_good G evs i, isolation_of_good G evs' i]
   unfold alone; rw [h]
 
+theorem no_cross_bytes (evs evs' : List (Ev All)) (i : Nat) (h : solo i evs = solo i evs') :
+    ((Sys.empty : Sys All).run evs).outputs i = ((Sys.empty : Sys All).run evs').outputs i :=
+  no_cross_bytes_generic goodAll evs evs' i h
+
 /-- the pool invariant behind it: at every point of every history, every object at rest in the
-    object pool is `Fresh` (only Release/Recycle put objects there, and they reset them), and every
-    live instance is in a state of the allocator-free machine -/
+    object pool is `Fresh` (only Release/Recycle put objects there), and every live instance is in a
+    state of the allocator-free machine -/
 theorem pool_always_fresh {K : Kind} (G : Good K) (evs : List (Ev K)) :
     (∀ o ∈ ((Sys.empty : Sys K).run evs).objs, G.Fresh o) ∧
     (∀ j x, ((Sys.empty : Sys K).run evs).live j = some x → ∃ a, G.Ref x a) :=
   let h := (WF.empty G).run G evs
   ⟨h.objs, h.live⟩
+
+/-! ### non-vacuity: a recycled ReaderSkipDecoder that really carries the previous tenant's bytes -/
+
+/-- instance 1 reads a 3-byte string through a ReaderSkipDecoder (its buffer grows to hold
+    `00 00 00 03 aa bb cc`) and releases it; instance 2 is handed THAT object by the pool (`pick = some 0`)
+    and reads one byte of its own into the retained buffer -/
+def exampleHistory : List (Ev kRSD) :=
+  [ .create 1 (⟨[0, 0, 0, 3, 0xaa, 0xbb, 0xcc], [⟨100, none⟩, ⟨100, none⟩]⟩ : Src) none,
+    .op 1 (11 : UInt8) [] (fun _ _ => 0xEE),
+    .release 1,
+    .create 2 (⟨[7, 9], [⟨1, none⟩, ⟨1, none⟩]⟩ : Src) (some 0),
+    .op 2 (3 : UInt8) [some 0] (fun _ _ => 0xEE) ]
+
+/-- after the third event the object pool holds the released object WITH the first tenant's bytes -/
+example : (((Sys.empty : Sys kRSD).run (exampleHistory.take 3)).objs : List ReaderSkipDecoderObj) =
+    [⟨none, 0, [0, 0, 0, 3, 0xaa, 0xbb, 0xcc]⟩] := by rfl
+
+/-- … and the second tenant, running on that object, sees its own byte only -/
+example : (((Sys.empty : Sys kRSD).run exampleHistory).outputs 2 : List (TOut (Bytes × Nat))) =
+    [.ok ([7], 1)] := by rfl
+
+example : ((Sys.empty : Sys kRSD).run exampleHistory).outputs 2 = alone 2 exampleHistory :=
+  isolation_generic goodRSD exampleHistory 2
+
+/-- two DefaultWriters: the first flushes `01 02 03` and its buffer goes back to the pool; the second
+    writer's first `Malloc` is handed THAT buffer (`picks = [some 0]`) -/
+def exampleWriters : List (Ev kDW) :=
+  [ .create 1 () none,
+    .op 1 (.mf [1, 2, 3]) [] (fun _ _ => 0xEE),
+    .op 1 .flush [] (fun _ _ => 0xEE),
+    .create 2 () none,
+    .op 2 (.mf [9]) [some 0] (fun _ _ => 0xEE),
+    .op 2 .flush [] (fun _ _ => 0xEE) ]
+
+-- the buffer pool really holds the first writer's bytes after its Flush …
+set_option maxRecDepth 100000 in
+example : (((Sys.empty : Sys kDW).run (exampleWriters.take 3)).bufs.map (fun b => b.take 4)) =
+    [[1, 2, 3, 0xEE]] := by rfl
+
+/-- … and the second writer's Flush delivers its own byte only -/
+example : ((((Sys.empty : Sys kDW).run exampleWriters).outputs 2).map
+    (fun (o : WrOut) => match o with | .flushed _ c => c.map (·.1) | _ => [])) = [[], [[9]]] := by rfl
 
 /-! ## Get is pure -/
 
